@@ -77,7 +77,7 @@ Deliverables, in {out}/ :
   2. demo.py     - a small stand-alone program (no pytest needed; it imports DocumentTemplate from PYTHONPATH) that exits 0 on the unchanged package and exits non-zero (assertion failure is fine) with your change applied, demonstrating the violation of the property statement as written (print what was expected and what was got)
   3. notes.md    - first line: `- Change: <file, function>: <one-sentence description>`; then what it violates, and exactly what is needed for it to manifest.
 
-Before you finish, verify yourself: (a) with the change applied the 94 tests pass; (b) demo.py fails with the change; (c) `git stash` (or `git checkout -- .`) -> demo.py passes without the change; then re-apply the change so the worktree contains it, and make sure patch.diff is current. Keep the change small (typically < 60 changed lines). Report in your final message the one-line description and the verification results.'''
+Before you finish, verify yourself: (a) with the change applied the 94 tests pass; (b) demo.py fails with the change; (c) save the change (`git diff > {out}/patch.diff`), undo it with `git apply -R {out}/patch.diff` (do NOT use `git stash`: the stash is shared by all worktrees of the repository and other people work in sibling worktrees) -> demo.py passes without the change; then re-apply it with `git apply {out}/patch.diff` so the worktree contains it, and make sure patch.diff is current. Keep the change small (typically < 60 changed lines). Report in your final message the one-line description and the verification results.'''
 
 if __name__ == '__main__':
     main(sys.argv[1], sys.argv[2])
